@@ -1,6 +1,7 @@
 #!/usr/bin/env python3-vt
 """Developer runner: python3-vt dev.py <contracts module> [function-suffix ...]"""
-import sys, importlib, time, glob, os
+import sys, importlib, time, glob, os, faulthandler
+faulthandler.dump_traceback_later(int(os.environ.get("DEV_TIMEOUT", "100")), exit=True)
 sys.path.insert(0, os.path.dirname(os.path.abspath(__file__)))
 from pyvc.world import World
 from pyvc.engine import Interp
@@ -25,7 +26,9 @@ def main():
         r = verify.verify_function(I, q, c.prop or "C??")
         print(f"== {q}: {r.status} {r.reason} paths={r.paths} exits={r.exits} obligs={len(r.obligs)} ({time.time()-t0:.2f}s)")
         for ob in r.obligs:
-            d = verify.discharge(ob)
+            from pyvc import par
+            rr = par.fork_call(lambda ob=ob: verify.discharge(ob), 20)
+            d = rr[1] if rr[0] == "ok" else {"verdict": "unknown", "reason": rr[0]}
             tot += 1
             if d["verdict"] != "unsat":
                 bad += 1
